@@ -71,31 +71,42 @@ Definition base (m : string) : string :=
 (* ---------------------------------------------------------------- the decision per entry *)
 Definition recv_borrowed (r : recv) : bool := match r with RecvRef | RecvMut => true | _ => false end.
 
+(* a path call / fully qualified call that NAMES the wrapped type reaches that type's method however the receiver
+   expression is written (`self`, `&*self`, `&**self`, a `let` alias of one of them): the argument type is checked by
+   rustc, only the wrapped value has it *)
+Definition names_inner (e : fwd) (ty : string) : bool :=
+  (style_eqb (fw_style e) PathCall && String.eqb (fw_path e) ty) ||
+  (style_eqb (fw_style e) UfcsTrait && String.eqb (fw_path e) (ty ++ " as " ++ trait_name (fw_trait e))).
+Definition pass_derefs (e : fwd) : bool := pass_eqb (fw_pass e) PStar || pass_eqb (fw_pass e) PStarStar.
+
 Definition entry_ok (e : fwd) : bool :=
   let m := fw_method e in
   let c := fw_callee e in
   fw_args_same e && String.eqb (base c) (base m) &&
   match fw_wrapper e with
   | WCont cn =>
+    (* inherent methods win over the trait method being defined, in method-call and in `Container::m` path position (trusted) *)
     match fw_recv e with
-    | RecvRef | RecvMut => String.eqb c m && style_eqb (fw_style e) MethodCall && (pass_eqb (fw_pass e) PSelf || pass_eqb (fw_pass e) PStar)
-    | RecvOwn => String.eqb c m && style_eqb (fw_style e) MethodCall && pass_eqb (fw_pass e) PSelf
+    | RecvRef | RecvMut => String.eqb c m && ((style_eqb (fw_style e) MethodCall && (pass_eqb (fw_pass e) PSelf || pass_eqb (fw_pass e) PStar))
+                                              || (style_eqb (fw_style e) PathCall && String.eqb (fw_path e) (container_name cn)))
+    | RecvOwn => String.eqb c m && ((style_eqb (fw_style e) MethodCall && pass_eqb (fw_pass e) PSelf)
+                                    || (style_eqb (fw_style e) PathCall && String.eqb (fw_path e) (container_name cn) && pass_eqb (fw_pass e) PSelf))
     | RecvBox => String.eqb m (c ++ "_boxed") && style_eqb (fw_style e) PathCall && String.eqb (fw_path e) (container_name cn) && pass_eqb (fw_pass e) PStar
     | RecvNone => false
     end
   | WRef | WMut =>
-    recv_borrowed (fw_recv e) && String.eqb c m && style_eqb (fw_style e) UfcsTrait &&
-    String.eqb (fw_path e) ("T as " ++ trait_name (fw_trait e)) && pass_eqb (fw_pass e) PSelf
+    (* `self.m(..)` would call the impl being defined; `( *self).m(..)` / `( **self).m(..)` find T's method first (by-value probe of &T / T) *)
+    recv_borrowed (fw_recv e) && String.eqb c m &&
+    (names_inner e "T" || (style_eqb (fw_style e) MethodCall && pass_derefs e))
   | WBox =>
     match fw_recv e with
-    | RecvRef | RecvMut => String.eqb c m && style_eqb (fw_style e) MethodCall && pass_eqb (fw_pass e) PStarStar
+    | RecvRef | RecvMut => String.eqb c m && ((style_eqb (fw_style e) MethodCall && pass_eqb (fw_pass e) PStarStar) || names_inner e "I")
     | RecvOwn => String.eqb c (m ++ "_boxed") && style_eqb (fw_style e) PathCall && String.eqb (fw_path e) "I" && pass_eqb (fw_pass e) PSelf
     | RecvBox => String.eqb m (c ++ "_boxed") && style_eqb (fw_style e) MethodCall && pass_eqb (fw_pass e) PStar
     | RecvNone => false
     end
   | WRefThreaded =>
-    recv_borrowed (fw_recv e) && String.eqb c m && style_eqb (fw_style e) PathCall &&
-    String.eqb (fw_path e) "ThreadedRodeo" && pass_eqb (fw_pass e) PSelf
+    recv_borrowed (fw_recv e) && String.eqb c m && style_eqb (fw_style e) PathCall && String.eqb (fw_path e) "ThreadedRodeo"
   end.
 
 (* (wrapper, trait, method, callee) *)
